@@ -68,6 +68,30 @@ def k_engines(ctx, seqs, k, engines, tag=None):
                               sorted(results[a].elements())[:30], sorted(results[b].elements())[:30])
 
 
+def k_big(ctx, n, k, np_seed):
+    """thousands of sequences: kdtree (and the default search) against the independent large-input oracle for max_edits = 1,
+    and against each other for larger radii (sizes straddling 2^13, 2^14, 2^15: block and index-width boundaries)"""
+    rng = random.Random(np_seed)
+    seqs = G.repertoire(rng, n, families=max(1, n // 3))
+    ctx.count("big_inputs")
+    ctx.count(f"big_inputs_over_{(n - 1).bit_length() - 1}_bits")
+    ctx.nontriv(["big", n, k, np_seed])
+    ctx.sample("big", {"n": n, "k": k, "first": seqs[:5]})
+    kd = ctx.call(S.engine("kdtree"), list(seqs), max_edits=k)
+    nnb = ctx.call(S.engine("nearest_neighbor"), list(seqs), max_edits=k)
+    if k == 1:
+        exp = O.neigh_self_k1_big(seqs)
+        S.expect_triplets(ctx, kd, exp, "kdtree", "self-big")
+        S.expect_triplets(ctx, nnb, exp, "nearest_neighbor", "self-big")
+    elif kd.ok and nnb.ok:
+        a, b = O.canon_triplets(kd.value), O.canon_triplets(nnb.value)
+        if a != b:
+            d = O.diff_triplets(a, b)
+            ctx.violation("kdtree-vs-nearest_neighbor:big:disagree", f"kdtree and the default search disagree on {n} sequences: {str(d)[:300]}", None, None)
+    else:
+        ctx.violation("kdtree:big:raised", "a search on a large input raised", (kd if not kd.ok else nnb).describe(), None)
+
+
 def k_suite(ctx):
     """The repository's own search tests, re-run with icontract post-conditions on the four engines (vmon/suite_plugin.py)."""
     import json
@@ -99,7 +123,7 @@ def k_suite(ctx):
                       "a post-condition fired while the repository's own tests were running", v, None)
 
 
-KINDS = {"engines": k_engines, "suite": k_suite}
+KINDS = {"engines": k_engines, "suite": k_suite, "big": k_big}
 
 ALL3 = ["nearest_neighbor", "hash_based", "kdtree"]
 
@@ -124,6 +148,15 @@ def generate(tier, seed):
             seqs = [a * k + "W", b * k + "W", a * k, b * k, a * (k - 1) + b + "W"]
             yield "engines", {"seqs": seqs, "k": k, "engines": ["nearest_neighbor", "kdtree"] + (["hash_based"] if k <= 2 else []),
                               "tag": "radius_boundary_cases"}, True
+    # a residue repeated 254..257 times (composition counts around 2^8)
+    for k in (1, 2):
+        seqs = ["A" * 255, "A" * 256, "A" * 257, "C" + "A" * 256 + "F", "C" + "A" * 255 + "G" + "F", "A" * 254 + "C", "A" * 256]
+        yield "engines", {"seqs": seqs, "k": k, "engines": ["nearest_neighbor", "kdtree"] + (["hash_based"] if k == 1 else []), "tag": "residue_count_256_cases"}, True
+    # sizes just beyond a power of two
+    for j, n in enumerate([9001] if not thorough else [8193, 9001, 16385, 17000, 32769]):
+        yield "big", {"n": n, "k": 1, "np_seed": 4400 + seed + j}, True
+    if thorough:
+        yield "big", {"n": 8200, "k": 2, "np_seed": 4500 + seed}, True
     # all strings of one length (no other length present): shift pairs need an intermediate of another length
     for alpha, L in (("AC", 4), ("ACD", 3), ("AC", 5)):
         u = [x for x in G.universe(alpha, L, L)]
